@@ -14,6 +14,8 @@ import (
 	"net"
 	"net/http"
 	"net/http/httputil"
+	"os"
+	"runtime"
 	"sort"
 	"strings"
 	"sync"
@@ -93,6 +95,8 @@ type memNet struct {
 	// optional observers (set before any traffic)
 	onProbe   func(target string)
 	onRequest func(target, id string)
+	// byte-level scripted targets (engine faults)
+	raw map[string]*rawTarget
 }
 
 func (n *memNet) all() []*memTarget {
@@ -115,7 +119,32 @@ func newMemNet() *memNet { return &memNet{targets: map[string]*memTarget{}, hcPa
 func (n *memNet) dial(ctx context.Context, network, addr string) (net.Conn, error) {
 	n.mu.Lock()
 	t := n.targets[addr]
+	rt := n.raw[addr]
 	n.mu.Unlock()
+	if rt != nil {
+		rt.mu.Lock()
+		ref := rt.refuse
+		rt.mu.Unlock()
+		if ref {
+			return nil, &net.OpError{Op: "dial", Net: network, Err: syscall.ECONNREFUSED}
+		}
+		c1, c2 := net.Pipe()
+		if os.Getenv("VERIF_DEBUG") != "" {
+			c1 = &debugConn{Conn: c1}
+		}
+		select {
+		case rt.ln.ch <- c2:
+			return c1, nil
+		case <-rt.ln.closed:
+			c1.Close()
+			c2.Close()
+			return nil, &net.OpError{Op: "dial", Net: network, Err: syscall.ECONNREFUSED}
+		case <-ctx.Done():
+			c1.Close()
+			c2.Close()
+			return nil, ctx.Err()
+		}
+	}
 	refuse := t == nil
 	if t != nil {
 		t.mu.Lock()
@@ -347,6 +376,9 @@ func newVerifWorld() *verifWorld {
 		if rp := unwrapReverseProxy(t.proxyHandler); rp != nil {
 			if tr, ok := rp.Transport.(*http.Transport); ok {
 				tr.DialContext = w.net.dial
+				if os.Getenv("VERIF_NOKEEPALIVE") != "" {
+					tr.DisableKeepAlives = true
+				}
 				w.transports = append(w.transports, tr)
 			}
 		}
@@ -445,3 +477,33 @@ func parseKVLine(line string) (string, map[string]string) {
 var _ = bufio.NewReader
 
 func errorsIs(err, target error) bool { return errors.Is(err, target) }
+
+
+type debugConn struct{ net.Conn }
+
+func (d *debugConn) Read(p []byte) (int, error) {
+	n, err := d.Conn.Read(p)
+	if err != nil {
+		os.Stderr.Write([]byte(fmt.Sprintf("READ err=%v n=%d at %s\n", err, n, time.Now().Format("15:04:05.000"))))
+	}
+	return n, err
+}
+
+func (d *debugConn) Write(p []byte) (int, error) {
+	n, err := d.Conn.Write(p)
+	os.Stderr.Write([]byte(fmt.Sprintf("WRITE n=%d/%d err=%v at %s: %q\n", n, len(p), err, time.Now().Format("15:04:05.000"), string(p[:min(len(p), 60)]))))
+	return n, err
+}
+
+func (d *debugConn) SetReadDeadline(t time.Time) error {
+	os.Stderr.Write([]byte(fmt.Sprintf("SETREADDEADLINE %v at %s\n", t.Format("15:04:05.000"), time.Now().Format("15:04:05.000"))))
+	return d.Conn.SetReadDeadline(t)
+}
+
+func (d *debugConn) Close() error {
+	buf := make([]byte, 4096)
+	n := runtime.Stack(buf, false)
+	os.Stderr.Write([]byte("CLOSE proxy->target conn at " + time.Now().Format("15:04:05.000") + "\n"))
+	os.Stderr.Write(buf[:n])
+	return d.Conn.Close()
+}
